@@ -223,7 +223,19 @@ def make(max_packet, buffer_size, epnum):
     return contract
 
 
+# Caller side (w1_usb2_glue): the EndpointInterface inputs this contract constrains by `require`s (token detector and data
+# receiver guarantees, rx_pid_toggle = bit 3 of the data PID, clear-halt record) and the ack/nak requests it ensures are
+# connected to those units in the real USBEndpointMultiplexer and the real USBDevice.
+WIRING = ("tokenizer", "rx", "handshakes_out", "clear_halt", "utmi_tx")
+
+
 def contracts(tier):
+    from .w1_usb2_glue import mux_wiring, device_wiring
+    yield ("USBEndpointMultiplexer", "wiring_3_interfaces", mux_wiring(3, WIRING))
+    yield ("USBDevice", "wiring_utmi", device_wiring("utmi", WIRING))
+    if tier != "quick":
+        yield ("USBEndpointMultiplexer", "wiring_2_interfaces", mux_wiring(2, WIRING))
+        yield ("USBDevice", "wiring_ulpi", device_wiring("ulpi", WIRING))
     cfgs = [(2, None, 3), (4, 5, 1)] if tier == "quick" else \
            [(2, None, 3), (2, 2, 15), (4, 5, 1), (4, 4, 2), (8, None, 1), (16, 16, 2), (64, None, 3), (64, 200, 4), (512, None, 1)]
     for mp, bs, ep in cfgs:
